@@ -75,6 +75,8 @@ def make(cfg, folder):
 
 def value_for(cfg, step):
     _, _, _, internal = geometry(cfg)
+    if cfg.get("values") == "none-odd" and not internal and step % 2 == 1:
+        return None  # None is a legitimate element of an object array: written, not missing
     return terms.term_array(f"v{step}", "", internal) if internal else f"v{step}"
 
 
@@ -389,6 +391,10 @@ def plan(tier, seed):
                 nch = 1 if len(full) == 1 else (8 if all(mask) else 4)
                 for c in range(nch):
                     units.append((f"rank{len(full)}-depth{depth}", ("bfs", cfg, depth_b, c, nch)))
+                if all(mask) and len(full) <= 2:
+                    # the same exploration with None as the value of every odd write (a written None is not a missing element)
+                    for c in range(nch):
+                        units.append((f"rank{len(full)}-depth{depth}-none-values", ("bfs", {**cfg, "values": "none-odd"}, depth_b, c, nch)))
     by = {}
     for st, u in units:
         by.setdefault(st, []).append((st, u))
